@@ -322,6 +322,10 @@ def replay(case):
                                   record=True, budget=300, line_level=len(row) > 4 and row[4])
         r = judge_close(kind, CLOSE_PROGRAMS[name], run)
         return r and '%s: %s' % r
+    if row[0] == 'deadpeer':
+        from . import c18
+        v, _ = c18.check_send_to_dead_peer()
+        return v and v[0][2]
     if row[0] == 'multiburst':
         from . import c18
         v = c18.check_multi_member_burst(row[1])
@@ -367,6 +371,7 @@ CLOSE_PROGRAMS = {
     'send2-recv2': [[_op('send', 1), _op('send', 2)], [_op('recv'), _op('recv')], [_op('close')]],
     'send-poll-close2': [[_op('send', 1)], [_op('poll'), _op('close')], [_op('close')]],
     'close-close': [[_op('close')], [_op('close')]],
+    'send2-poll-close': [[_op('send', 1), _op('send', 2)], [_op('poll'), _op('close')]],
     'poll-poll': [[_op('poll')], [_op('poll')]],
     'poll-close': [[_op('poll')], [_op('close')]],
     'close-close-close': [[_op('close')], [_op('close'), _op('close')], [_op('close')]],
@@ -377,6 +382,8 @@ CLOSE_PLAN_QUICK = [('echo', 'idle-recv', 3), ('device', 'idle-recv', 3), ('iopo
                     # a thread switch possible before every statement of ports.py (sys.settrace)
                     ('multi', 'close-close', 1, True), ('echo', 'close-close', 1, True), ('device', 'close-close', 1, True),
                     ('ioport', 'close-close', 1, True),
+                    # a device write that fails must not leave the port unusable for other threads
+                    ('faultydev', 'send2-poll-close', 2), ('faultydev', 'send-poll-close2', 1),
                     # a PortServer with one connection waiting: two polls at once, a poll racing with close
                     ('server', 'poll-poll', 1, True), ('server', 'poll-close', 1, True), ('server', 'close-close', 1, True)]
 CLOSE_PLAN_THOROUGH = [('echo', 'idle-recv', 4), ('device', 'idle-recv', 4), ('ioport', 'idle-recv', 3), ('multi', 'idle-recv', 3),
@@ -386,6 +393,7 @@ CLOSE_PLAN_THOROUGH = [('echo', 'idle-recv', 4), ('device', 'idle-recv', 4), ('i
                        ('multi', 'close-close', 2, True), ('echo', 'close-close', 2, True), ('device', 'close-close', 2, True),
                        ('ioport', 'close-close', 2, True), ('multi', 'close-close-close', 2, True),
                        ('device', 'send-recv', 1, True), ('multi', 'idle-recv', 1, True),
+                       ('faultydev', 'send2-poll-close', 3), ('faultydev', 'send-poll-close2', 3),
                        ('server', 'poll-poll', 2, True), ('server', 'poll-close', 2, True), ('server', 'close-close', 2, True)]
 CLOSE_SHARDS = 8
 
@@ -406,7 +414,7 @@ def judge_close(kind, prog, run):
             if op['op'] == 'send':
                 if k == 'ok':
                     sent_ok.append(op['m'])
-                elif k != 'raise:ValueError':
+                elif k != 'raise:ValueError' and not (kind == 'faultydev' and k == 'raise:OSError'):
                     return 'close-race/send-raises', 'send() ended with %s' % k
             if op['op'] == 'recv' and k not in ('msg', 'raise:OSError', 'raise:ValueError'):
                 return 'close-race/receive-result', 'blocking receive() ended with %s' % k
@@ -589,6 +597,11 @@ def run(ctx):
         if r:
             ctx.violation('lifecycle/socket/%s' % r[0], {'row': ['socket', mode, stream, cut, acts, delivered, polls]},
                           '%s (SocketPort, %s, peer actions %r)' % (r[1], mode, acts))
+    # a device that discovers on a WRITE that it is gone (real TCP)
+    v, skipped = c18.check_send_to_dead_peer()
+    ctx.replayed += 1
+    for key, case, msg in v:
+        ctx.violation('lifecycle/socket/' + key, {'row': ['deadpeer']}, msg)
     # a member of a MultiPort that takes in a burst and closes itself
     for nb in (100, 64, 65, 1):
         for key, case, msg in c18.check_multi_member_burst(nb):
